@@ -316,6 +316,11 @@ class Interp:
                 ga = self.class_lookup(obj.cls, "__getattr__")
                 if ga is not None and is_repo_function(ga):
                     return self.call(BoundMethod(obj, ga), [name], {})
+                if self.env.class_assigns_attr(obj.cls, name):
+                    # an instance attribute that the class does set somewhere, missing from an object a contract built
+                    # by listing fields (e.g. a field added to __init__ later): not modelled, i.e. undecided - not an
+                    # AttributeError of the program
+                    raise Unsupported(f"field {obj.cls.__name__}.{name} is set by the class but not modelled by the contract's object")
                 self.raise_exc(AttributeError, f"'{obj.cls.__name__}' object has no attribute '{name}'")
             return self.bind(obj, a, name)
         if isinstance(obj, StubObj):
